@@ -235,6 +235,15 @@ def unsentDestruct (c : Core) (ob : Nat) : Core :=
     let sibs := (c.objs s).contains
     mapSent c fun u o => if (u = s ∨ u ∈ sibs) ∧ o.ec then rmSent ob o.sent else o.sent
 
+/-- some sentence list got shorter: remove_sent() removed a sentence and set `illegal_sentence_action = 2` -/
+def sentChanged (c c' : Core) : Bool :=
+  (List.range c.n).any (fun i => (c.objs i).sent.length != (c'.objs i).sent.length)
+
+/-- remove the first sentence satisfying `p` -/
+def eraseFirst (p : String × Nat → Bool) : List (String × Nat) → List (String × Nat)
+  | [] => []
+  | t :: l => if p t then l else t :: eraseFirst p l
+
 /-- add_action: new sentence at the head of the command giver's list -/
 def addSent (c : Core) (g : Nat) (verb : String) (ob : Nat) : Core :=
   mapSent c fun u o => if u = g then (verb, ob) :: o.sent else o.sent
@@ -303,6 +312,8 @@ inductive Op where
   | rd                       -- read that variable back
   | err                      -- error("boom")
   | mvarg                    -- inside move_or_destruct(dest): if (dest) move_object(dest)
+  | ret0                     -- the running action function will return 0 (`act_ret = 0` in the executing object)
+  | ra (a : Nat) (verb : String)  -- a: remove_action("act", verb)
   | obf                      -- objects("ofilt"): obj_list walked with a filter function of the executing object
   | ct (o : Op)              -- catch (o)
   | nop
@@ -331,6 +342,8 @@ structure World where
   catching : Nat := 0                     -- number of catch() frames around the running code (innermost error context
                                           -- is a catch frame iff > 0)
   res : List Nat := []                    -- the array returned by the last objects(filter) (result register)
+  isa : Nat := 0                          -- illegal_sentence_action (1: remove_action ran, 2: remove_sent removed something)
+  ret0 : List Nat := []                   -- objects whose LPC variable `act_ret` is 0
   ldepth : Nat := 0                       -- num_objects_this_thread: load_object() calls in progress
   out : List String := []                 -- canonical trace, newest first
 
@@ -432,6 +445,7 @@ inductive Task where
   | command (a : Nat) (verb : String)                      -- process_command(verb, a) + user_parser
   | destruct (ob : Nat)                                    -- destruct_object
   | dloop (ob : Nat) (sup0 : Option Nat) (saveR : Option Nat)  -- its `while (ob->contains)` loop
+  | cmdloop (a : Nat) (verb : String) (rest : List (String × Nat)) (saveIsa : Nat)  -- user_parser's loop over the sentences
   | objloop (self : Nat) (rest acc : List Nat)             -- f_objects: the filter pass over the collected objects
 
 def errInside := NV.Gen.C08.errInsideSrc
@@ -447,6 +461,8 @@ def errFis (b : Base) : String :=
   "Bad argument 1 to first_inventory(), Expected: string or object Got: \"/" ++ b.str ++ "\"."
 def errNoDest := NV.Gen.C08.errNoDestSrc
 def errEfunCb := NV.Gen.C08.errEfunCbSrc
+def errIsa1 := NV.Gen.C08.errIsa1Src
+def errIsa2 := NV.Gen.C08.errIsa2Src
 /-- `MaxInheritDepth` of the harness configuration -/
 abbrev inheritChainSize : Nat := NV.Gen.C08.inheritChainSize
 def errChain (b : Base) : String :=
@@ -575,6 +591,19 @@ def exec (sc : Scripts) : Nat → Task → World → R
             (exec sc f (.move self d) (emit w s!"mvb {oid self} {oid d}")).andThen fun w _ =>
               { w := emit w s!"r mv {oid self} {oid d} ok" }
           | none => { w := emit w s!"r mvarg {oid self} 0" }
+        | .ret0 => { w := { w with ret0 := self :: w.ret0.filter (· ≠ self) } }
+        | .ra a verb =>
+          -- remove_action: `ob = command_giver ? command_giver : current_object`; first sentence of ob defined by the
+          -- caller with that function and verb; `illegal_sentence_action = 1`
+          match readRef w.c a with
+          | none => { w := emit w s!"r ra {oid a} {verb} !gone" }
+          | some a =>
+            let g := w.cg.getD a
+            if ¬ (g < w.c.n) ∨ (w.c.objs g).freed then crashR w "remove_action: command_giver"
+            else if (w.c.objs g).sent.any (fun t => t.2 == a && t.1 == verb) then
+              { w := emit { w with c := mapSent w.c (fun u o => if u = g then eraseFirst (fun t => t.2 == a && t.1 == verb) o.sent else o.sent),
+                                   isa := 1 } s!"r ra {oid a} {verb} 1" }
+            else { w := emit w s!"r ra {oid a} {verb} 0" }
         | .obf =>
           -- f_objects with a filter (since the `fix:` commit): obj_list is collected first - no LPC code runs -, then
           -- the filter is asked about every collected object that is still alive, then the accepted ones that were
@@ -606,6 +635,10 @@ def exec (sc : Scripts) : Nat → Task → World → R
         let w := match k, arg with
           | .init, some y => { w with initBad := w.initBad || !adjacent w.c x y }
           | _, _ => w
+        -- `act_ret = 1;` at the start of the action function
+        let w := match k with
+          | .act => { w with ret0 := w.ret0.filter (· ≠ x) }
+          | _ => w
         let w := match k with
           | .create => emit w s!"new {oid x} {(w.c.objs x).name.str}"
           | _ => emit w s!"hb {oid x} {k.str} {ooid arg}"
@@ -701,7 +734,8 @@ def exec (sc : Scripts) : Nat → Task → World → R
             if anyFreed w.c oldInv then crashR w "move_object unlink"
             else
               let saveCg := w.cg
-              let w0 := { w with c := relink (unsentMove w.c item) item dest }
+              let w0 := { w with c := relink (unsentMove w.c item) item dest,
+                                 isa := if sentChanged w.c (unsentMove w.c item) then 2 else w.isa }
               let r : R :=
                 if (w0.c.objs item).ec then exec sc f (.hook dest .init (some item)) { w0 with cg := some item }
                 else { w := w0 }
@@ -767,13 +801,29 @@ def exec (sc : Scripts) : Nat → Task → World → R
         let saveCg := w.cg
         if ¬ (w.c.objs a).ec then { w := w, val := none }
         else
-          -- sentences hold a reference to their object: the structure is never released while listed
-          -- (a sentence only ever holds an allocated object: add_action stores current_object)
-          match (w.c.objs a).sent.find? (fun t => decide (t.2 < w.c.n) && !(w.c.objs t.2).destructed && t.1 == verb) with
-          | none => { w := w, val := none }
-          | some t =>
-            (exec sc f (.hook t.2 .act (some a)) { w with cg := some a }).andThen fun w _ =>
-              { w := { w with cg := saveCg }, val := some a }
+          -- process_command: command_giver = a; user_parser: `illegal_sentence_action` saved and cleared, the loop
+          -- over the sentences, restored by the exits of the loop; command_for_object restores command_giver
+          (exec sc f (.cmdloop a verb (w.c.objs a).sent w.isa) { w with cg := some a, isa := 0 }).andThen fun w v =>
+            { w := { w with cg := saveCg }, val := v }
+    | .cmdloop a verb rest saveIsa =>
+      match rest with
+      | [] => { w := { w with isa := saveIsa }, val := none }     -- notify_no_command ()
+      | t :: rest =>
+        -- sentences hold a reference to their object: the structure is never released while listed
+        if ¬ (decide (t.2 < w.c.n) && !(w.c.objs t.2).destructed && t.1 == verb) then exec sc f (.cmdloop a verb rest saveIsa) w
+        else
+          (exec sc f (.hook t.2 .act (some a)) w).andThen fun w _ =>
+            -- `command_giver = save_command_giver;`
+            let w := { w with cg := some a }
+            let ret := !(w.ret0.contains t.2)
+            -- fix: the action destructed the command giver (its sentence list is freed): stop parsing
+            if ¬ (a < w.c.n) ∨ (w.c.objs a).destructed then
+              { w := { w with isa := saveIsa }, val := if ret then some a else none }
+            else if ret then { w := { w with isa := if w.isa = 0 then saveIsa else w.isa }, val := some a }
+            else if w.isa = 1 then raise w errIsa1
+            else if w.isa = 2 then raise w errIsa2
+            -- no sentence was removed meanwhile: `s->next` is the rest of the list as it was
+            else exec sc f (.cmdloop a verb rest saveIsa) w
     | .destruct ob =>
       if restricted w ob then raise w errRestrict
       else if ¬ (ob < w.c.n) ∨ (w.c.objs ob).freed then crashR w "destruct_object: not an object"
@@ -795,7 +845,8 @@ def exec (sc : Scripts) : Nat → Task → World → R
         else
           -- (set_heart_beat(ob, 0) runs just before O_DESTRUCTED is set)
           let w := hbRemove w ob
-          { w := { w with c := finishDestruct (unsentDestruct w.c ob) ob } }
+          { w := { w with c := finishDestruct (unsentDestruct w.c ob) ob,
+                          isa := if sentChanged w.c (unsentDestruct w.c ob) then 2 else w.isa } }
       | otmp :: _ =>
         if ¬ (otmp < w.c.n) ∨ (w.c.objs otmp).freed then crashR w "destruct_object contains"
         else
